@@ -7,6 +7,7 @@ feasibility query and every claim.
 The functions under test are verde's own function objects imported from /repo;
 nothing here translates or copies them.
 """
+import hashlib
 import math
 import os
 import time
@@ -256,6 +257,25 @@ class Engine:
                 self.inc.pop()
         fs = self.asserts + extra
         fs2, cons = ackermannize(fs)
+        # lazy Ackermann: functional-consistency constraints are added only when a model violates them
+        # (unsat without them is unsat with them)
+        if cons:
+            active = []
+            for _round in range(12):
+                sl = z3.Solver()
+                sl.add(fs2)
+                sl.add(active)
+                r = _z3_check(sl, self.timeout_ms)
+                if r == z3.unsat:
+                    self._cross(extra, "unsat")
+                    return "unsat", None, "z3-oneshot-lazyack"
+                if r != z3.sat:
+                    break
+                m = sl.model()
+                bad = [c for c in cons if not z3.is_true(m.eval(c, model_completion=True))]
+                if not bad:
+                    return "sat", (m if want_model else None), "z3-oneshot-lazyack"
+                active.extend(bad)
         s = z3.Solver()
         s.add(fs2)
         s.add(cons)
@@ -757,9 +777,21 @@ class SymNum:
     def sqrt(self):
         x = _r(self.t)
         ENGINE.obligations.append(("definedness: sqrt of negative", x >= 0))
+        if getattr(ENGINE, "keyed_sqrt", False):
+            # sqrt(t) as a constant keyed by the normalised argument term: syntactic congruence only
+            # (weaker than the uninterpreted function, hence sound for 'valid' verdicts; keeps queries out of nlsat's worst cases)
+            xs = z3.simplify(x, som=True)
+            r = z3.Real("sqrt!%s" % hashlib.sha1(xs.sexpr().encode()).hexdigest()[:12])
+            ENGINE.add(r >= 0)
+            if getattr(ENGINE, "sqrt_pos_axiom", False):
+                ENGINE.add(z3.Implies(x > 0, r > 0))
+            if getattr(ENGINE, "sqrt_axiom", False):
+                ENGINE.add(r * r == x)
+            return SymReal(r)
         r = SQRT(x)
         ENGINE.add(r >= 0)
-        ENGINE.add(z3.Implies(x > 0, r > 0))
+        if getattr(ENGINE, "sqrt_pos_axiom", False):
+            ENGINE.add(z3.Implies(x > 0, r > 0))
         if getattr(ENGINE, "sqrt_axiom", False):
             ENGINE.add(r * r == x)
         return SymReal(r)
@@ -767,6 +799,13 @@ class SymNum:
     def log(self):
         x = _r(self.t)
         ENGINE.obligations.append(("definedness: log of non-positive", x > 0))
+        ENGINE.add(LOG(z3.RealVal(1)) == 0)
+        if z3.is_app(x) and x.decl().name() == "pow" and x.num_args() == 2:
+            b, e = x.arg(0), x.arg(1)
+            # ground axioms: log(b**e) = e*log(b) for b > 0; 0**0 = 1; b > 0 => b**e > 0
+            ENGINE.add(z3.Implies(b > 0, LOG(x) == e * LOG(b)))
+            ENGINE.add(z3.Implies(z3.And(b == 0, e == 0), x == 1))
+            ENGINE.add(z3.Implies(b > 0, x > 0))
         return SymReal(LOG(x))
 
     def sin(self):
@@ -1078,3 +1117,30 @@ def fp_value(v):
 
     bv = z3.simplify(z3.fpToIEEEBV(v))
     return struct.unpack("<d", struct.pack("<Q", bv.as_long()))[0]
+
+
+# ----------------------------------------------------------------------------
+# dual-mode transcendental helpers for claims (uninterpreted in sym, math.* in replay)
+# ----------------------------------------------------------------------------
+def _u1(uf, mf, x):
+    if _anysym(x):
+        return SymReal(uf(T(x)))
+    return mf(float(x))
+
+
+def ulog(x):
+    return _u1(LOG, math.log, x)
+
+
+def usin(x):
+    return _u1(SIN, math.sin, x)
+
+
+def ucos(x):
+    return _u1(COS, math.cos, x)
+
+
+def usqrt(x):
+    if _anysym(x):
+        return SymReal(T(x)).sqrt()
+    return math.sqrt(float(x))
